@@ -1063,6 +1063,9 @@ func (t *trzszTransfer) doCreateDirectory(path string, perm *uint32) error {
 }
 
 func (t *trzszTransfer) createFile(path, fileName string, truncate bool, perm *uint32) (fileWriter, string, error) {
+	if err := checkFileName(fileName); err != nil {
+		return nil, "", err
+	}
 	var localName string
 	if t.transferConfig.Overwrite {
 		localName = fileName
